@@ -1427,6 +1427,11 @@ def compile_pattern(compiler, pattern):
     elif isinstance(value, Symbol):
         return compiler.scope.assign(asty.MatchAs(value, name=mangle(value)))
     elif isinstance(value, Expression) and value[0] == Symbol("|"):
+        if not value[1]:
+            compiler._syntax_error(value, "`|` pattern needs at least one alternative")
+        if len(value[1]) == 1:
+            # Python requires at least two alternatives.
+            return compile_pattern(compiler, value[1][0])
         return asty.MatchOr(
             value,
             patterns=[compile_pattern(compiler, v) for v in value[1]],
